@@ -241,7 +241,7 @@ func sha(b []byte) string { return fmt.Sprintf("%x", sha256.Sum256(b)) }
 
 func checkC14(r *Run) {
 	type mk = func() *descgen.Entry
-	reqs := []mk{descgen.K1, descgen.K9, descgen.K7, descgen.K4, func() *descgen.Entry { return descgen.K11(3) }}
+	reqs := []mk{descgen.K1, descgen.K9, descgen.K7, descgen.K4, func() *descgen.Entry { return descgen.K11(3) }, descgen.K13}
 	for _, n := range []string{"k5", "k9", "k8"} {
 		n := n
 		reqs = append(reqs, func() *descgen.Entry { return descgen.OptionVariant(descgen.CuratedByName(n), r.Seed, 1) })
